@@ -1,7 +1,7 @@
 import CalicoVerif.Util.Proto
 import CalicoVerif.Model.C23
 /-! Driver for C23.  Ops (decimal naturals; `-` = none / empty):
-  `new GRACE` | `insync` | `block b AFF ENTRIES` | `blockdel b` | `cnode n K` | `cnodedel n` | `knode n 0|1` |
+  `new GRACE` | `insync` | `block b AFF ENTRIES` (AFF = node | `-` | `v` = a non-host, e.g. virtual, affinity) | `blockdel b` | `cnode n K` | `cnodedel n` | `knode n 0|1` |
   `pod id inCache inApi node evicted IPS` | `poddel id fromCache fromApi` | `dirty n` | `tick minutes` | `sync 0|1` | `dump`
   ENTRIES = `-` | entry(`;`entry)*, entry = `ord:HANDLE:kind:node:pod:seq`, kind ∈ p t u w;  IPS = `-` | b`.`o(`,`b`.`o)*
 Output of `sync`: `rel=… rba=… rha=… ok|work`; of `dump`: the collector's bookkeeping; otherwise `ok`.
@@ -35,7 +35,9 @@ def parseBool : String → Option Bool
 
 def parseOp : List String → Option Op
   | ["insync"] => some .inSync
-  | ["block", b, a, es] => do pure (.block (← b.toNat?) (← optNat a) (← parseEntries es))
+  | ["block", b, a, es] => do
+    let aff ← if a == "v" then some Aff.other else (optNat a).map (fun o => match o with | some n => Aff.host n | none => Aff.none)
+    pure (.block (← b.toNat?) aff (← parseEntries es))
   | ["blockdel", b] => do pure (.blockDel (← b.toNat?))
   | ["cnode", n, k] => do pure (.cnode (← n.toNat?) (← optNat k))
   | ["cnodedel", n] => do pure (.cnodeDel (← n.toNat?))
